@@ -182,3 +182,36 @@ Theorem C15_sync_copies_all : forall src dst,
   v_returns (sync src dst) = v_returns dst /\ v_training (sync src dst) = v_training dst.
 Proof. exact sync_copies_all. Qed.
 Print Assumptions C15_sync_copies_all.
+
+(* ---- extension: what step_wait returns; terminal observations ---- *)
+Theorem C15_terminal_fragments : forall done has,
+  vn_term_skip done = negb done /\ vn_term_present has = has /\ forall b, vn_norm_obs_guard b = b.
+Proof. exact frag_vn_terminal. Qed.
+Print Assumptions C15_terminal_fragments.
+
+Theorem C15_terminal_obs_same_transform : forall p st obs rews dones terms ss sr i x,
+  nth_error dones i = Some true -> nth_error terms i = Some (Some x) ->
+  let '(st', out) := step_outputs p st obs rews dones terms ss sr in
+  nth_error (o_term out) i = Some (Some (normalize_obs_model p st' ss x)) /\
+  (forall j o, nth_error obs j = Some o -> nth_error (o_obs out) j = Some (normalize_obs_model p st' ss o)) /\
+  v_obs_rms st' = upd_obs_rms update p st obs.
+Proof. exact terminal_obs_same_transform. Qed.
+Print Assumptions C15_terminal_obs_same_transform.
+
+Theorem C15_terminal_obs_untouched_when_not_done : forall p st ss t, term_out p st ss false t = t.
+Proof. exact terminal_obs_untouched_when_not_done. Qed.
+Print Assumptions C15_terminal_obs_untouched_when_not_done.
+
+Theorem C15_unnormalised_passthrough : forall p chans ms ss x,
+  length ms = length chans -> length ss = length chans -> length x = length chans ->
+  norm_vec p false chans ms ss x = x.
+Proof. exact norm_vec_passthrough. Qed.
+Print Assumptions C15_unnormalised_passthrough.
+
+Example C15_terminal_example :
+  let p := mk_vnp 1 10 (1 # 2) 0 [true] in
+  let st := vn_init p 2 false true true in   (* not training: statistics stay (0, 1, eps), s = 1 *)
+  let '(st', out) := step_outputs p st [[3]; [1 # 2]] [1; 1] [true; false] [Some [5]; None] [1] 1 in
+  o_obs out = [[normalize_s 3 0 1 1]; [normalize_s (1 # 2) 0 1 1]] /\
+  o_term out = [Some [normalize_s 5 0 1 1]; None] /\ (normalize_s 5 0 1 1 == 1)%Q /\ (normalize_s (1 # 2) 0 1 1 == 1 # 2)%Q.
+Proof. cbn. repeat split; reflexivity. Qed.
